@@ -14,7 +14,7 @@ ASSUMPTIONS = ["dyadic penalties"]
 
 
 def budget(tier):
-    return 1500 if tier == "quick" else 30000
+    return 5000 if tier == "quick" else 50000
 
 
 def gen(rng, index, tier):
